@@ -23,7 +23,7 @@ RULE = (
     "instance; non-trivial = tree with >= 3 nodes; distinct = distinct tree fingerprints"
 )
 ASSUMPTIONS = ["all nodes of a tree are registered (handles are held) and no object occurs twice, as the statement requires"]
-MUST_SEE = ["twin_pairs_in_tree", "foreign_twins", "non_ancestor_pairs", "index_ge_10", "root_relative_valueerror", "keyerrors", "subtree_trees", "exact_tuple_hits"]
+MUST_SEE = ["both_foreign_keyerrors", "twin_pairs_in_tree", "foreign_twins", "non_ancestor_pairs", "index_ge_10", "root_relative_valueerror", "keyerrors", "subtree_trees", "exact_tuple_hits"]
 CONFIG = {
     "quick": {"shards": 16, "trees": 400, "max_nodes": 28, "watchdog_s": 300},
     "thorough": {"shards": 32, "trees": 600, "max_nodes": 45, "watchdog_s": 3000},
@@ -283,4 +283,22 @@ def run_shard(ctx):
                 bad("relative_depth", "relative depth to a foreign node did not raise ValueError")
             except ValueError:
                 pass
+        # both arguments outside the tree: "the node is not in the tree" wins (KeyError), whatever the other argument is
+        for fa, fb in ((foreign[0], foreign[-1]), (foreign[-1], foreign[0]), (foreign[-1], foreign[-1])):
+            for name, call in (
+                ("is_ancestor(foreign, other foreign)", lambda: t.is_ancestor(fa, fb)),
+                ("get_depth(foreign, relative_to=other foreign)", lambda: t.get_depth(fa, relative_to=fb)),
+                ("get_depth(foreign, relative_to=other foreign, check_ancestor=False)", lambda: t.get_depth(fa, relative_to=fb, check_ancestor=False)),
+            ):
+                ctx.evaluations += 1
+                try:
+                    call()
+                    r = "returned"
+                except KeyError:
+                    r = "KeyError"
+                    ctx.count("both_foreign_keyerrors")
+                except Exception as e:  # noqa: BLE001
+                    r = type(e).__name__
+                if r != "KeyError":
+                    bad("foreign", f"{name} did not raise KeyError", got=r)
         del foreign
